@@ -88,9 +88,10 @@ def run(prog: Program, res: Result) -> None:
     # the list handed to pd.DataFrame for _df_fit is the accumulator of rows
     acc_name = None
     for n in own_nodes(ex):
-        if isinstance(n, ast.Assign) and dotted(n.targets[0]) == "self._df_fit" and isinstance(n.value, ast.Call) \
-                and dotted(n.value.func) in ("pd.DataFrame", "pandas.DataFrame") and n.value.args and isinstance(n.value.args[0], ast.Name):
-            acc_name = n.value.args[0].id
+        if isinstance(n, ast.Assign) and dotted(n.targets[0]) == "self._df_fit":
+            v_ = origin(ex.node, n.value) if isinstance(n.value, ast.Name) else n.value
+            if isinstance(v_, ast.Call) and dotted(v_.func) in ("pd.DataFrame", "pandas.DataFrame") and v_.args and isinstance(v_.args[0], ast.Name):
+                acc_name = v_.args[0].id
     rows = [n for n in ast.walk(loop) if isinstance(n, ast.Call) and isinstance(n.func, ast.Attribute) and n.func.attr == "append"
             and isinstance(n.func.value, ast.Name) and n.func.value.id == acc_name and len(n.args) == 1]
     row_dict = origin(ex.node, rows[0].args[0]) if len(rows) == 1 and isinstance(rows[0].args[0], ast.Name) else (rows[0].args[0] if len(rows) == 1 else None)
@@ -111,8 +112,10 @@ def run(prog: Program, res: Result) -> None:
         fresh = len(defs) == 1 and isinstance(defs[0].value, ast.List) and not defs[0].value.elts
         others = [n for n in own_nodes(ex) if isinstance(n, ast.Name) and n.id == acc and isinstance(n.ctx, ast.Store)]
         fresh = fresh and len(others) == 1
-    dfs = [n for n in own_nodes(ex) if isinstance(n, ast.Assign) and dotted(n.targets[0]) == "self._df_fit" and isinstance(n.value, ast.Call)
-           and dotted(n.value.func) in ("pd.DataFrame", "pandas.DataFrame") and n.value.args and dotted(n.value.args[0]) == acc]
+    def _df_of(n_):
+        v_ = origin(ex.node, n_.value) if isinstance(n_.value, ast.Name) else n_.value
+        return isinstance(v_, ast.Call) and dotted(v_.func) in ("pd.DataFrame", "pandas.DataFrame") and v_.args and dotted(v_.args[0]) == acc
+    dfs = [n for n in own_nodes(ex) if isinstance(n, ast.Assign) and dotted(n.targets[0]) == "self._df_fit" and _df_of(n)]
     okt = fresh and len(dfs) == 1 and dfs[0].lineno > loop.end_lineno
     res.ob(okt, f"{mod.relpath}: `{acc}` is a fresh list per execute() and is what _df_fit is built from", "fresh-rows")
     if not okt:
